@@ -1801,14 +1801,67 @@ def rule_float_to_int_handlers_are_two_sided(eng, rep, rule="C07-16.a-handler-fo
     rep.require_count(rule, "guarded float-to-int conversions of a quotient", ntry, 1)
 
 
+# --------------------------------------------------------------------------------------------- C07-17
+def rule_main_loop_cycles_make_progress(eng, rep, rule="C07-17.every-cycle-of-the-main-loop-passes-a-progress-site"):
+    """solve returns only if the main loop of solve_main ends.  Its ranking argument is lexicographic: evaluations are bounded by maxfun, rho strictly decreases whenever it is
+    reduced (C18-9) and is bounded below by rhoend, restarts are bounded by the budget.  The structural premise decided here: no path from the head of the loop back to the head
+    avoids all *progress sites* -- a call that reaches the objective (an evaluation), a call of reduce_rho, or a restart.  A new `continue` in front of them, or a branch
+    that only logs and loops, would be such a path.  (That a progress site does make progress -- strictness, the budget test -- is C18-9 / C02-1.)"""
+    from .anchors import anchors
+    A = anchors(eng)
+    sm = A.solve_main
+    cfg = eng.cfg(sm)
+    whiles = [(h, st) for (h, kind, st) in cfg.loops if kind == "while"]
+    if len(whiles) != 1 or A.sink is None:
+        rep.unknown(rule, eng.where(sm), "expected one main loop in solve_main (found %d) and one evaluation sink" % len(whiles))
+        return
+    h, wst = whiles[0]
+    body = cfg.loop_nodes(h)
+    sink = A.sink.fid
+    evaluating = set(fid for fid in eng.prog.functions if sink in eng.res.reachable_from(fid) or fid == sink)
+    reducers = {"controller.Controller.reduce_rho"}
+    prog = set()
+    for n in body:
+        a = cfg.ast_of(n)
+        if a is None or cfg.kind(n) not in ("stmt", "cond"):
+            continue
+        for sub in ast.walk(a):
+            if isinstance(sub, ast.Call):
+                ci = eng.res.calls.get(id(sub))
+                if ci is None:
+                    continue
+                fids = set(t.fid for t in ci.targets)
+                if fids & reducers or (fids and fids <= evaluating) or ci.kind == "USER":
+                    prog.add(n)
+    backs = [a for a in body for m, e in cfg.succ(a, with_exc=False) if m == h]
+    if not rep.require_count(rule, "back edges of the main loop", len(backs), 5):
+        return
+    if not rep.require_count(rule, "progress sites in the main loop", len(prog), 5):
+        return
+    nbad = 0
+    for b in sorted(backs):
+        p = cfg.path_avoiding_flag_aware(h, b, prog) if b not in prog else None
+        site = eng.where(sm, cfg.ast_of(b)) if cfg.ast_of(b) is not None else eng.where(sm)
+        if p is None:
+            rep.ok(rule, site, "every path from the loop head to this back edge passes an evaluation, reduce_rho or a restart")
+        else:
+            nbad += 1
+            rep.bad(rule, site, "solver.solve_main|cycle-without-progress|L%s" % getattr(cfg.ast_of(b), "lineno", "?"),
+                    "the main loop can go round through this back edge without evaluating the objective, reducing rho or restarting: nothing bounds the number of such rounds",
+                    path=cfg.describe_path(p))
+
+
 def run(eng, rep):
     rep.explain("C07: call conformance of every resolved internal call (T10); shape of the graceful input-error path in solve (T2); "
                 "guard present for each documented invalid-argument class (frozen table, matched on normalised conditions); "
                 "exit-code registry and parameter registry agreement code<->code<->docs (T9); unknown key => ValueError (T2); "
                 "inventory of explicit raises reachable from solve (T1); exit_info non-None at every run exit (T3).")
     rep.explain("Also decided: definite assignment of every local read in functions reachable from solve, aware of the first-iteration idiom `if i == start:` (C07-11, frozen exceptions with their premises re-checked); the package's own parameter updates are guarded so that they cannot be second updates (truth-table entailment for flags, C07-10); type validators test the value they were given (C07-5b); the restart geometry loop stays inside its list (sibling consistency, C07-12); the asserted precondition of the coordinate initialiser is established by solve for the npt of every run (C07-13); single-parameter thresholds and option-vs-argument contradictions validated in solve (C07-3 rows).")
+    rep.explain("Also decided (round 4): no Python-typed division by a root / modulus of data or by a parameter whose range includes zero (C07-14); no assert on an argument in solve (C07-15); "
+                "handlers around float-to-int conversions of quotients cover NaN and infinity (C07-16); every cycle of the main loop passes an evaluation, reduce_rho or a restart (C07-17).")
     rep.not_decided += ["absence of implicit exceptions raised inside NumPy/SciPy calls for every documented input",
-                        "termination of the main loop (structural part: C18-5)"]
+                        "termination of the main loop beyond its structural premises (C07-17 every cycle passes a progress site, C18-9 rho strictly decreases, C02-1 budget, C18-5): "
+                        "that a callee which can evaluate always does is not decided"]
     rep.guarded(rule_call_conformance, eng, rep)
     rep.guarded(rule_names_resolve, eng, rep)
     ctx = rule_graceful(eng, rep)
@@ -1828,5 +1881,6 @@ def run(eng, rep):
     rep.guarded(rule_no_python_division_by_a_vanishing_root, eng, rep)
     rep.guarded(rule_solve_does_not_assert_on_its_arguments, eng, rep)
     rep.guarded(rule_float_to_int_handlers_are_two_sided, eng, rep)
+    rep.guarded(rule_main_loop_cycles_make_progress, eng, rep)
     from . import c20
     c20.rule_str_never_formats_none(eng, rep, rule="C07-8.printing")
